@@ -24,7 +24,13 @@ PROP = {'drive': ['Dsl'],
                        'C19_roundtrip_gpos4',
                        'C19_glyphlist_roundtrip',
                        'C19_total_partial',
-                       'C19_total'],
+                       'C19_total',
+                       'C19_total_full_holds',
+                       'C19_roundtrip_gsub5',
+                       'C19_roundtrip_gsub6',
+                       'C19_roundtrip_gpos7',
+                       'C19_roundtrip_gpos8',
+                       'C19_roundtrip_all_lists'],
  'areas': [('dsl', 6000, 60000)],
  'rule': 'distinct case lines (font = glyph count, names, cmap; text or lookup list; GOMAXPROCS); non-trivial = '
          'text of at least two bytes / at least one lookup / a non-zero flag set',
@@ -37,16 +43,15 @@ PROP = {'drive': ['Dsl'],
              'mixing types 1-4 (C19_roundtrip_gpos1, C19_roundtrip_gpos2, C19_roundtrip_gpos3, C19_roundtrip_gpos4, '
              'C19_roundtrip_gpos_lists); the small '
              'universes remain as kernel-evaluated examples',
-             'GSUB 5/6 and GPOS 7/8 (contextual forms, one notation; GPOS 7/8 readable only since repair 14): parser and printer not modelled in '
-             'Lean; the round trip Parse(Explain(l)) = l is evaluated on the real code only (stream dsl.rtseed: lookups '
-             'regenerated from the seed in the case line, structural comparison in the harness, Lean side fixes the '
-             'verdict), plus dsl.total and dsl.goroutines',
-             'C19_total (no escape) is proved for every font and every text in which no item is one of the keywords '
-             'GSUB5, GSUB6, GPOS7, GPOS8: the parser model (lexer, item supply, fatal, flags, glyph lists, GSUB 1-4 '
-             'and GPOS 1-4 with several subtables) returns lookups or an error with line >= 1 and never runs out of '
-             'loop fuel; C19_total_partial says the same for all texts with the escape "stops at one of those four '
-             'keywords"; C19_total_full (no hypothesis) stays unproved - for the contextual forms the real code is '
-             'checked by stream dsl.total (outcome class and line >= 1)',
+             'GSUB 5/6 and GPOS 7/8 (contextual and chained contextual lookups, all three formats, class definitions, '
+             'backtrack | input | lookahead, nested actions) are modelled since round 3 (printer and parser, streams '
+             'dsl.explain / dsl.parse / dsl.modelrt) and their round trips are proved for every font and lookup of the '
+             'domain (C19_roundtrip_gsub5, _gsub6, _gpos7, _gpos8, C19_roundtrip_all_lists for any mix of GSUB resp. '
+             'GPOS lookups). Glyphs may be called class / inputclass / backtrackclass / lookaheadclass: the models and '
+             'proofs follow the repaired parser (patch 15: keyword only when ":" follows). The seeded Go-only stream '
+             'dsl.rtseed is kept as an extra',
+             'C19_total (= C19_total_full_holds) is proved with no exclusion: for every font and every text the parser '
+             'model returns lookups or an error with line >= 1 and no loop runs out of fuel',
              'goroutine clause: C19_confluent/C19_terminates/C19_no_leak are about the process model; that the Go '
              'runtime implements unbuffered channels as the model says is trusted; the real code is observed by '
              'goroutine profiles after Parse under GOMAXPROCS 1, 2, 4, 16 (dsl.goroutines)',
@@ -72,24 +77,27 @@ PROP = {'drive': ['Dsl'],
                  'coverage ascending and non-empty with int16 anchors, GPOS 4 at least one mark record per subtable, mark '
                  'and base glyphs ascending, mark classes exactly 0..k-1 (< 65536), k int16 anchors per base record',
                  'the models mirror the builder including the repairs 12 (NUL byte) and 13 (font without cmap), both '
-                 'committed in /repo, and 14 (GPOS7/GPOS8 keywords, uncommitted edit + patches/C19/14)']}
+                 'committed in /repo, 14 (GPOS7/GPOS8 keywords, committed) and 15 (class keywords versus glyph names: '
+                 'patches/C19/15, NOT applied in /repo; check runs need VERIF_REPO pointing to a copy with patch 15)']}
 
 LEVEL = {'text': 'Proof (partial): Lean models of the lexer (token machine over Go-decoded UTF-8, line counting), of '
-         'Parse for lookup flags, glyph lists/sets/ranges/strings, GSUB 1-4 and GPOS 1-4, of ExplainGsub/ExplainGpos for the same, and a '
+         'Parse (every form of the language: lookup flags, glyph lists/sets/ranges/strings, GSUB 1-6, GPOS 1-4, 7, 8), of '
+         'ExplainGsub/ExplainGpos for the same, and a '
          'three-process model of the goroutine/channel structure with an arbitrary scheduler. Proved for all '
-         'inputs: the lexer is total and ends in exactly one EOF/error item with lines >= 1 (C19_lex_total); every '
+         'inputs: the lexer is total and ends in exactly one EOF/error item with lines >= 1 (C19_lex_total); the parser '
+         'returns lookups or an error with line >= 1 on every text (C19_total); every '
          'flag subset round-trips and the two flag tables regenerated from parser.go/explain.go coincide '
          '(C19_flags, C19_flags_same_spelling); all maximal schedules are finite and end in the same state '
          '(C19_confluent, C19_terminates) in which, for the repaired Parse, no process is blocked (C19_no_leak), '
          'while the unrepaired structure provably leaks the decoder goroutine (C19_leak_before_repair). Round '
          'trips parse(explain l) = l are proved for every font and lookup of the domain for glyph lists, GSUB 1-4, '
-         'GPOS 1, GPOS 2 (formats 2.1 and 2.2), GPOS 3 and GPOS 4 and for descriptions mixing them (induction over the structure: '
+         'GPOS 1-4, the contextual forms GSUB 5/6 and GPOS 7/8, and for descriptions mixing all types (induction over the structure: '
          'lexing of rendered pieces, a fragment logic for the parser, per-form lemmas). '
          'Tied to the code by output-exact correspondence (items with lines, Parse outcomes with line and error '
          'class, Explain text byte for byte) and by evaluating the round trip, totality and goroutine counts on '
          'the real code.',
  'note': 'Trusted: Lean kernel + 3 standard axioms; hand-written models mirror lexer.go/parser.go/explain.go as '
          'checked by sampled correspondence; Go runtime semantics of unbuffered channels; Unicode tables of the '
-         'toolchain (regenerated). Fourteen defects repaired in /repo (thirteen committed as fix: builder: ...; the fourteenth, GPOS7/GPOS8 not accepted by Parse, is patches/C19/14 and an uncommitted edit of parser.go).',
+         'toolchain (regenerated). Fifteen defects: fourteen repaired and committed in /repo (fix: builder: ...); the fifteenth (a glyph called class / inputclass / ... at the start of a format 1 subtable is taken for a class definition) is patches/C19/15, which the models mirror and the check needs.',
  'technique': 'Lean 4 proofs (induction over inputs and schedules, diamond property, kernel evaluation of finite '
               'universes) + differential correspondence + direct evaluation on the real code'}
